@@ -10,6 +10,7 @@ Decided
       on a block whose length is that increment; cluster metadata keys are shifted by the CLUSTER offsets of their probe
   F1  effects of Merger.merge: every write / delete / in-place map store is under the output directory; inputs are loaded
       without memory mapping
+  +   the probe list the Merger iterates is the caller's list in the caller's order (not sorted / de-duplicated / reversed / filtered)
 Not decided: tie order beyond "stable + probe order of concatenation"; dtype promotion of the in-place additions.
 """
 import ast
@@ -486,7 +487,41 @@ def f1_effects(ctx):
     ctx.check(len(sites) >= 8, 'C11.F1', fi, 'merge', 'the effect analysis sees the writes of the merge (%d sites)' % len(sites), 'effect analysis lost the writes of merge')
 
 
+def probe_order(ctx, rule):
+    """Everything the Merger writes is "in input order": the list of probe directories it iterates (self.subdirs) is the caller's list, element by element, in the
+    caller's order - not sorted, de-duplicated through a set, reversed or filtered. (Shared with C12: the block structure is per input probe.)"""
+    repo = ctx.repo
+    cls = repo.cls(MG, 'Merger')
+    init = repo.lookup_method(cls, '__init__')
+    if init is None:
+        raise AnchorMissing('Merger.__init__')
+    p = init.params[1] if len(init.params) > 1 else 'subdirs'
+    stores = [a for f_ in [init] + [h_ for h_ in repo.transparent_closure(init) if h_ is not init] for a in f_.nodes(ast.Assign)
+              if any(isinstance(t, ast.Attribute) and t.attr == 'subdirs' and isinstance(t.value, ast.Name) for t in a.targets)]
+    later = [a for m_ in cls.methods.values() if m_.name != '__init__' for a in m_.nodes(ast.Assign)
+             if any(isinstance(t, ast.Attribute) and t.attr == 'subdirs' and isinstance(t.value, ast.Name) and t.value.id == m_.self_name for t in a.targets)]
+    if not stores:
+        ctx.undecided(rule, init, 'the assignment of self.subdirs was not found')
+        return
+    a = stores[-1]
+    x = init.expand(a.value)
+    good = Pat().any(['[E_f(V_s) for V_s in %s]' % p, 'list(map(E_f, %s))' % p, 'list(%s)' % p, '[V_s for V_s in %s]' % p, 'tuple(E_f(V_s) for V_s in %s)' % p,
+                      '[E_f(V_s) for V_s in list(%s)]' % p, p, 'tuple(%s)' % p, '[E_f(V_s).E_m() for V_s in %s]' % p, '[E_f(V_s).E_m for V_s in %s]' % p], x)
+    calls = [dotted(c.func) or (q.method_name(c) or '') for c in ast.walk(x) if isinstance(c, ast.Call)]
+    reorder = [c for c in calls if c in ('sorted', 'set', 'frozenset', 'reversed', 'np.unique', 'np.sort', 'dict.fromkeys', 'filter', 'natsorted', 'sort')] + \
+        (['a set comprehension'] if any(isinstance(n, ast.SetComp) for n in ast.walk(x)) else []) + \
+        (['a filter'] if any(isinstance(n, (ast.ListComp, ast.GeneratorExp)) and any(g.ifs for g in n.generators) for n in ast.walk(x)) else []) + \
+        (['a reversing slice'] if any(isinstance(n, ast.Slice) and n.step is not None for n in ast.walk(x)) else [])
+    inplace = [c for m_ in [init] for c in m_.calls() if q.method_name(c) in ('sort', 'reverse') and isinstance(c.func.value, ast.Attribute) and c.func.value.attr == 'subdirs']
+    ctx.tri(bool(good) and not later and not inplace, bool(reorder) or bool(inplace) or bool(later), rule, init, (inplace or later or [a])[0],
+            'the probes are merged in the order the caller listed them (self.subdirs is the given list, element by element)',
+            'the list of probe directories is re-arranged (%s): probe k of the input no longer gets the k-th block / offset / label, and ties between probes are ordered differently' %
+            (', '.join(reorder) or ('rewritten in %s' % (later[0].lineno if later else 'place'))),
+            'how self.subdirs is derived from the given list (`%s`) was not recognised' % unparse(x)[:80])
+
+
 def run(ctx):
+    ctx.part('C11.A1', probe_order, 'C11.A1')
     ctx.part('C11.A1', helpers)
     ctx.part('C11.A1', a1_saved)
     ctx.part('C11.S1', s1_offsets)
